@@ -266,6 +266,51 @@ def fault_format(truth_i, pa, pb, j, active):
         return _ok_after(files, ref.files, fs.files, (), fs.log)  # no tolerance: rendering happens before any file is opened
 
 
+KEYWORDS = ("from", "class", "import", "lambda", "None")
+
+
+def keyword_name(kw, truth_i, st, active):
+    """a description whose parameter is named like a Python keyword cannot be rendered as a class / function: whatever the invocation
+    does (fail, or succeed for kinds that can express it), every file afterwards is untouched, or complete AND parseable"""
+    kw, truth_i, st = realize((kw, truth_i, st))
+    with untraced():
+        from collections import OrderedDict
+
+        name = KEYWORDS[kw]
+        src = ("def set_cli_args(argument_parser):\n    \"\"\"\n    Set CLI arguments\n\n    :param argument_parser: argument parser\n"
+               "    :type argument_parser: ```ArgumentParser```\n\n    :returns: argument_parser\n    :rtype: ```ArgumentParser```\n    \"\"\"\n"
+               "    argument_parser.description = 'Summary line'\n"
+               "    argument_parser.add_argument('--%s', type=str, help='the option', required=True, default='x')\n"
+               "    return argument_parser\n" % name)
+        files = {FILES["argparse_function"]: src}
+        if st == 1:
+            files[FILES["class"]] = "import os\n\nX = 1\n"
+        elif st == 2:
+            files[FILES["class"]] = render("class", STALE())
+        fs = FS(files)
+        before = fs.snapshot()
+        import doctrans.conformance
+        from harness.syncenv import mk_args
+
+        undo = install(fs, *MODS)
+        try:
+            with redirect_stdout(io.StringIO()):
+                try:
+                    doctrans.conformance.ground_truth(mk_args("argparse_function", ("argparse_function", "class"), 0), FILES["argparse_function"])
+                except Exception:
+                    pass  # a failing conversion is acceptable; damaged files are not
+        finally:
+            undo()
+        for f, cur in fs.files.items():
+            if cur == before.get(f):
+                continue
+            try:
+                ast.parse(cur)
+            except SyntaxError:
+                return False
+        return True
+
+
 def fault_props(k, partial, active):
     k, partial = realize((k, partial))
     with untraced():
@@ -330,6 +375,11 @@ def obligations(tier, seed):
                       bounds="truth %s; the j-th call of black's format_str raises, j in 0..3 (symbolic); pre-states as above; NO tolerance "
                       "(the source is fully rendered and formatted before the file is opened)" % KINDS[t],
                       timeout=200 if tier == "quick" else 600, path_timeout=120, funcs=FUNCS))
+    obs.append(Ob(name="unrenderable_name", params=[("kw", "int"), ("t", "int"), ("st", "int")],
+                  pre=["0 <= kw < %d" % len(KEYWORDS), "t == 0", "0 <= st <= 2"], body="H.keyword_name(kw, t, st, {ACTIVE})", witness=(0, 0, 2),
+                  kf=[("KF-C20-black-accepts-keyword-names", "kw >= 3")],
+                  kind="F", bounds="an argparse truth whose option is named like a Python keyword %r synced into a class target that is missing / "
+                  "lacks the definition / is stale: afterwards every file is untouched or parseable" % (KEYWORDS,), timeout=120, funcs=FUNCS))
     obs.append(Ob(name="fault_sync_properties", params=[("k", "int"), ("partial", "bool")], pre=["0 <= k <= 8"],
                   body="H.fault_props(k, partial, {ACTIVE})", witness=(0, False), kind="S",
                   bounds="sync_properties with two pairs; OSError at I/O event k (0..8, symbolic), partial write or not", timeout=120, funcs=FUNCS))
